@@ -198,3 +198,7 @@ var nativePanic any
 // OnAtomicLoad installs a hook that runs right after every atomic.Value load in
 // the code under test: a preemption point for interleaving harnesses. nil removes it.
 func OnAtomicLoad(f func()) {}
+
+// SelectNondet: when on, a select with several ready cases explores each of
+// them (Go chooses at random); when off the first ready case in source order wins.
+func SelectNondet(on bool) {}
